@@ -24,7 +24,8 @@ ENTRIES = ["rtcmmessage.RTCMMessage.__init__", "rtcmreader.RTCMReader.parse", "r
 
 
 def _count_probe_loop(eng, f, loop) -> bool:
-    """`for i in itertools.count(k):` whose body probes `getattr(obj, <name built from i>, SENTINEL)` and breaks / returns when the result `is SENTINEL`."""
+    """`for i in itertools.count(k):` whose body probes `getattr(obj, <name built from i>, SENTINEL)` and breaks / returns when the result `is SENTINEL`,
+    or probes `getattr(obj, <name built from i>)` in a try whose AttributeError handler breaks / returns."""
     it = loop.iter
     if not (isinstance(it, ast.Call) and isinstance(it.func, (ast.Name, ast.Attribute))):
         return False
@@ -33,6 +34,13 @@ def _count_probe_loop(eng, f, loop) -> bool:
     is_count = fname == "itertools.count" or any(isinstance(st, ast.ImportFrom) and st.module == "itertools" and any(a.name == "count" and (a.asname or a.name) == fname for a in st.names) for st in tree.body)
     if not is_count or not isinstance(loop.target, ast.Name):
         return False
+    # try: v = getattr(obj, <name built from i>) / obj.<...> except AttributeError: break
+    for nd in ast.walk(loop):
+        if isinstance(nd, ast.Try) and not nd.finalbody:
+            probing = any(isinstance(c, ast.Call) and norm(c.func) == "getattr" and len(c.args) == 2 and any(isinstance(x, ast.Name) and x.id == loop.target.id for x in ast.walk(c.args[1])) for st in nd.body for c in ast.walk(st))
+            leaves_ = any(h.type is not None and norm(h.type) == "AttributeError" and any(isinstance(x, (ast.Break, ast.Return)) for st in h.body for x in ast.walk(st)) for h in nd.handlers)
+            if probing and leaves_:
+                return True
     probes = {}
     for nd in ast.walk(loop):
         if isinstance(nd, ast.Assign) and len(nd.targets) == 1 and isinstance(nd.targets[0], ast.Name) and isinstance(nd.value, ast.Call) and norm(nd.value.func) == "getattr" and len(nd.value.args) == 3 \
